@@ -240,12 +240,19 @@ impl Damage {
                 }
             }
             Damage::Multi { flips, .. } => {
+                // the same position may be drawn twice: only positions whose byte ends up different count as changed
+                let before = bytes.clone();
                 for (pos, mask) in flips {
                     if let Some(b) = bytes.get_mut(*pos as usize) {
                         *b ^= mask;
-                        if *mask != 0 {
-                            changed.push(*pos);
-                        }
+                    }
+                }
+                let mut ps: Vec<u64> = flips.iter().map(|(p, _)| *p).collect();
+                ps.sort();
+                ps.dedup();
+                for p in ps {
+                    if bytes.get(p as usize) != before.get(p as usize) {
+                        changed.push(p);
                     }
                 }
             }
@@ -686,6 +693,82 @@ pub fn run_for(desc: &Value, ctx: &Ctx, oracle: Oracle) -> CaseOut {
                     ),
                     Some(v) => out.obs.inc(&format!("check_outcome.{}", v.split(':').next().unwrap_or("?"))),
                     None => out.obs.inc("check_outcome.not_reached"),
+                }
+            }
+            // the same alteration made IN PLACE under handles that were opened, and had verified the container, before it:
+            // a check asked again of a long-lived handle must notice too (content packs only: their bytes are always read
+            // from the file, whereas the manifest and directory are legitimately held in memory once opened; and only bytes of the
+            // hashed range, not the check block itself: an open pack keeps the expected hash it read when it was first checked)
+            let in_check_block = changed.iter().any(|p| view.spans.iter().any(|sp| sp.start <= *p && *p < sp.end && sp.check_block));
+            let same_len = !in_check_block && s.files[d.file()].1.len() as u64 > changed.iter().copied().max().unwrap_or(0) && !matches!(d, Damage::Truncate { .. } | Damage::Append { .. } | Damage::Replace { .. });
+            let content_only = owners.iter().all(|o| view.packs.get(*o).map(|p| p.hdr.kind == b'c').unwrap_or(false));
+            if same_len && content_only && u64::from_str_radix(&out.fp[..8], 16).unwrap_or(0) % 3 == 0 {
+                let live = scratch.path("live");
+                std::fs::create_dir_all(&live).unwrap();
+                for (name, bytes, _) in &s.files {
+                    std::fs::write(live.join(name), bytes).unwrap();
+                }
+                let mut damaged = s.files[d.file()].1.clone();
+                let _ = d.apply(&mut damaged);
+                let ids: Vec<u16> = s.plan.pack_ids.iter().copied().filter(|i| *i != 0).collect();
+                let r = util::catch(|| -> Option<Vec<(String, String)>> {
+                    use jubako::reader::MayMissPack;
+                    use jubako::Pack as _;
+                    let cont = jubako::reader::Container::new(live.join("c.jbk")).ok()?;
+                    let file = jubako::tools::open_pack(live.join(fname)).ok()?;
+                    // first round on the intact files: everything verifies (otherwise the pristine clause reports it)
+                    if !matches!(cont.check(), Ok(true)) || !matches!(file.check(), Ok(true)) {
+                        return None;
+                    }
+                    for id in &ids {
+                        if let Ok(Some(MayMissPack::FOUND(p))) = cont.get_pack(jubako::PackId::from(*id)) {
+                            if !matches!(p.check(), Ok(true)) {
+                                return None;
+                            }
+                        }
+                    }
+                    // alter the bytes in place (same inode, same length)
+                    {
+                        use std::io::{Seek, SeekFrom, Write};
+                        let mut f = std::fs::OpenOptions::new().write(true).open(live.join(fname)).ok()?;
+                        for p in &changed {
+                            f.seek(SeekFrom::Start(*p)).ok()?;
+                            f.write_all(&damaged[*p as usize..*p as usize + 1]).ok()?;
+                        }
+                        f.sync_all().ok()?;
+                    }
+                    let show = |r: jubako::Result<bool>| match r {
+                        Ok(v) => format!("ok:{v}"),
+                        Err(e) => format!("err:{e}"),
+                    };
+                    let mut res = vec![("Container::check on the handle opened before".to_string(), show(cont.check())), ("ContainerPack::check on the handle opened before".to_string(), show(file.check()))];
+                    for o in &owners {
+                        let uuid = view.packs.get(*o).map(|p| p.hdr.uuid).unwrap_or_default();
+                        for id in &ids {
+                            if let Ok(Some(MayMissPack::FOUND(p))) = cont.get_pack(jubako::PackId::from(*id)) {
+                                if *p.uuid().as_bytes() == uuid {
+                                    res.push((format!("ContentPack::check of pack {id} on the handle opened (and checked) before"), show(p.check())));
+                                }
+                            }
+                        }
+                    }
+                    Some(res)
+                });
+                match r {
+                    Ok(Some(res)) => {
+                        out.obs.inc("in_place_alterations_under_open_handles");
+                        for (what, v) in res {
+                            if v == "ok:true" {
+                                out.violate(
+                                    json!({"kind": "check-true-after-damage", "check": what.split(' ').next().unwrap_or(""), "live": true, "structure": structure, "op": d.op(), "profile": profile()}),
+                                    format!("C04: {what} answers Ok(true) although {} altered checksummed bytes in {structure} of {fname} ({}) after the first check", d.op(), s.name),
+                                    json!({"changed": changed.iter().take(8).collect::<Vec<_>>()}),
+                                );
+                            }
+                        }
+                    }
+                    Ok(None) => out.obs.inc("in_place_alterations_skipped"),
+                    Err(_) => out.obs.inc("in_place_alterations_panicked(C06)"),
                 }
             }
             // the same question through the command line tool (`jbk check <damaged file>`)
